@@ -246,7 +246,7 @@ for _p, (_n, _txt) in _P.items():
     META[_p]["technique"] = TECH_PB
 
 # floors on the number of obligations generated per run (vacuity guard): about 70 % of the count on the tree of part 5
-_FLOORS = {"C01": 55, "C02": 50, "C03": 40, "C04": 130, "C05": 36, "C06": 64, "C07": 120, "C08": 235, "C09": 200, "C10": 185, "C11": 78, "C12": 78,
-           "C13": 38, "C14": 75, "C15": 46, "C16": 14, "C17": 12, "C18": 295, "C19": 190, "C20": 225}
+_FLOORS = {"C01": 70, "C02": 175, "C03": 120, "C04": 195, "C05": 400, "C06": 125, "C07": 215, "C08": 460, "C09": 420, "C10": 240, "C11": 108, "C12": 100,
+           "C13": 65, "C14": 90, "C15": 88, "C16": 56, "C17": 46, "C18": 490, "C19": 235, "C20": 410}
 for _p, _n in _FLOORS.items():
     META[_p]["min_obligations"] = _n
